@@ -61,6 +61,31 @@ Lemma wit_tail_race :
   /\ connected s = false /\ in_map s = false /\ wk s = WFbParkedE FS false.
 Proof. vm_compute. repeat split; try reflexivity; try (intro; discriminate). Qed.
 
+
+(* ---- examples: the hypotheses / conclusions of the theorems are met by reachable states ---- *)
+
+Definition p_tight : params := mkP 2 100 0 [([2;3], false)] false.
+Definition s_tight : list choice :=
+  [CIo SRBlock 0; CIo SRBlock 0; CIo SRBlock 0; CIo SRBlock 0; CIo SRBlock 0; CIo SRBlock 0; CIo SRBlock 0; CEnv EArrive; CIo SRBlock 0; CIo SRBlock 0; CIo SRBlock 0; CIo SRBlock 0; CIo SRBlock 0; CIo SRBlock 0; CIo SRBlock 0; CIo SRBlock 0; CIo SRBlock 0; CIo SRBlock 0; CW SRBlock; CW SRBlock; CW SRBlock; CW SRBlock; CW SRBlock; CW SRBlock; CW SRBlock; CW SRBlock; CW SRBlock].
+(* the bound is attained: pending = high_watermark + last write *)
+Example ex_bound_tight :
+  let s := run p_tight s_tight in pending s = 5 /\ hw p_tight = 2 /\ last_write s = 3 /\ total s = 5.
+Proof. vm_compute. repeat split. Qed.
+
+Definition p_abort : params := mkP 2 1 0 [([3;1], false)] false.
+Definition s_abort : list choice :=
+  [CIo SRBlock 0; CIo SRBlock 0; CIo SRBlock 0; CIo SRBlock 0; CIo SRBlock 0; CIo SRBlock 0; CIo SRBlock 0; CEnv EArrive; CIo SRBlock 0; CIo SRBlock 0; CIo SRBlock 0; CIo SRBlock 0; CIo SRBlock 0; CIo SRBlock 0; CIo SRBlock 0; CIo SRBlock 0; CIo SRBlock 0; CIo SRBlock 0; CW SRBlock; CW SRBlock; CW SRBlock; CW SRBlock; CW SRBlock; CW SRBlock; CW SRBlock; CW SRBlock; CW SRBlock; CW SRBlock; CW SRBlock; CW SRBlock; CEnv EGone; CIo SRBlock 0; CIo SRBlock 0; CIo SRBlock 0; CIo SRBlock 0; CIo SRBlock 0; CIo SRBlock 0; CIo SRBlock 0; CIo SRBlock 0; CIo SRBlock 0; CIo SRBlock 0; CIo SRBlock 0; CIo SRBlock 0; CIo SRBlock 0; CW SRBlock; CIo SRBlock 0; CIo SRBlock 0; CIo SRGone 0; CIo SRBlock 0; CIo SRBlock 0].
+(* a producer parked above the mark while handle_close runs: the state C12_abort talks about *)
+Example ex_abort_state :
+  let s := run p_abort s_abort in
+  w_parked s = true /\ connected s = false /\ io s = IoHcNotify KFlush /\ wk s = WFbParked FW false.
+Proof. vm_compute. repeat split. Qed.
+(* ... and what follows: notify, wake, ClientDisconnected, close branch *)
+Example ex_abort_follow :
+  let s := run p_abort (s_abort ++ [CIo SRBlock 0; CIo SRBlock 0; CIo SRBlock 0; CIo SRBlock 0; CW SRBlock; CW SRBlock]) in
+  wk s = WCloseAcq /\ In LRaise (trace p_abort (s_abort ++ [CIo SRBlock 0; CIo SRBlock 0; CIo SRBlock 0; CIo SRBlock 0; CW SRBlock; CW SRBlock])) /\ appended s = 3.
+Proof. vm_compute. split; [reflexivity|split; [|reflexivity]]. repeat (first [left; reflexivity | right]). Qed.
+
 (* ---- a spinning poll turn changes nothing ----------------------------------- *)
 
 Fixpoint steps_io (p : params) (s : state) (n : nat) : option state :=
@@ -80,6 +105,9 @@ Proof.
   assert (Z2 : (sb p <=? total0) = false) by (apply Z.leb_gt; assumption).
   assert (Z3 : (total0 =? 0) = false) by (apply Z.eqb_neq; lia).
   assert (Z4 : (nreq0 =? 0)%nat = false) by (apply Nat.eqb_neq; lia).
-  destruct (look p <? nreq0)%nat eqn:Z5; [left|right];
-    do 6 (cbn; unfold rdy_r, rdy_w, to_top; cbn; rewrite ?Z1, ?Z2, ?Z3, ?Z4, ?Z5, ?orb_false_r, ?andb_false_r); reflexivity.
+  destruct (look p <? nreq0)%nat eqn:Z5; [left|right].
+  all: cbn [steps_io].
+  all: do 10 (try (unfold step_io at 1; cbn -[steps_io step_io]; unfold rdy_r, rdy_w, to_top; cbn -[steps_io step_io];
+         rewrite ?Z1, ?Z2, ?Z3, ?Z4, ?Z5, ?orb_false_r, ?andb_false_r; cbn -[steps_io step_io])).
+  all: reflexivity.
 Qed.
